@@ -205,9 +205,101 @@ def nontrivial(ops, out):
 def canon(ops, out):
     return wire.canon(ops, out)
 
+# ---------------------------------------------------------------- backlog stream: offline / oversize / order
+
+def pub_size(topic, qos, plen, v5):
+    rl = 2 + len(topic) + (2 if qos else 0) + (1 if v5 else 0) + plen
+    return 1 + (1 if rl <= 127 else 2) + rl
+
+def gen_backlog(rng):
+    """one persistent subscriber with a Maximum Packet Size; messages of sizes around it pile up while it is offline
+    (or while its window is closed); after the reconnect everything that fits must arrive, in publication order"""
+    v = rng.choice([5, 5, 4])
+    limit = rng.choice([30, 40, 60]) if v == 5 else None
+    rm = rng.choice([None, 1, 2]) if v == 5 else None
+    ops = [f"new mode=onlyonce q0=1 mi={rng.choice([100, 2])}", "conn p cp v=5 cs=1"]
+    def connect(name):
+        line = f"conn {name} cs v={v} cs=0"
+        if v == 5:
+            line += " se=300"
+            if limit: line += f" mp={limit}"
+            if rm: line += f" rm={rm}"
+        ops.append(line)
+    connect("s1")
+    ops.append(f"sub s1 1 t/#|{rng.choice([1, 2, 2])}")
+    pid, tag = 1, 0
+    def burst(k):
+        nonlocal pid, tag
+        for _ in range(k):
+            tag += 1; pid += 1
+            q = rng.choice([1, 1, 2, 0])
+            base = (limit or 40)
+            n = max(1, base - rng.choice([22, 18, 15, 14, 13, 12, 11, 10, 8, 4]))
+            ops.append(f"pub p t/{rng.choice(['a', 'bb'])} q={q} pid={pid if q else 0} tag=m{tag} n={n}")
+            if q == 2: ops.append(f"rel p {pid}")
+    mode = rng.choice(["offline", "offline", "window"])
+    if mode == "offline":
+        ops.append(rng.choice(["close s1", "disc s1"]))
+        burst(rng.randint(2, 7))
+        connect("s2")
+        last = "s2"
+    else:
+        burst(rng.randint(3, 8))      # the window (rm / mi) fills, the rest waits in the queue
+        last = "s1"
+    for _ in range(10):
+        ops += [f"ack {last} puback all", f"ack {last} pubrec all", f"ack {last} pubcomp all"]
+    ops.append(f"ping {last}")
+    return ops
+
+def predicate_backlog(ops, out):
+    if len(out) != len(ops) or (out and out[0].startswith("CRASH")):
+        return "implementation crashed or hung: " + (out[0] if out else "")
+    v, limit, subq = 4, None, 0
+    sent = []            # (tag, topic, qos, n) in publication order
+    got = []             # tags in arrival order (first transmissions only)
+    for op, line in zip(ops, out):
+        if "HANG" in line:
+            return f"broker did not become quiescent after `{op}`"
+        f = op.split()
+        kv = dict(x.split("=", 1) for x in f if "=" in x)
+        pre, conns = wire.parse_line(line)
+        if f[0] == "conn" and f[2] == "cs":
+            v = int(kv.get("v", 4)); limit = int(kv["mp"]) if "mp" in kv else None
+        elif f[0] == "sub":
+            subq = int(f[3].split("|")[1])
+        elif f[0] == "pub":
+            sent.append((kv["tag"], f[2], int(kv["q"]), int(kv.get("n", 0))))
+        for name, (h, p) in conns.items():
+            if not name.startswith("s"):
+                continue
+            for x in p:
+                pf = wire.pub_fields(x)
+                if pf and pf["d"] == 0:
+                    if limit is not None and pf["sz"] > limit:
+                        return f"`{op}`: PUBLISH of {pf['sz']} bytes sent to a client whose Maximum Packet Size is {limit}"
+                    got.append(pf["tag"])
+    want = []
+    for tag, topic, q, n in sent:
+        eq = min(q, subq)
+        size = pub_size(topic, eq, max(n, len(tag)), v == 5)
+        if limit is None or size <= limit:
+            want.append(tag)
+    if got != want:
+        missing = [t for t in want if t not in got]
+        extra = [t for t in got if t not in want]
+        if missing or extra:
+            return f"after the backlog drained the subscriber has {got}; expected exactly the messages that fit, {want} (missing {missing}, unexpected {extra})"
+        return f"messages of one publisher arrived out of publication order: {got}, published {want}"
+    return None
+
+def nontrivial_backlog(ops, out):
+    return any("mp=" in o for o in ops) and sum(1 for o in ops if o.startswith("pub ")) >= 3
+
 def streams(tier):
     n = 600 if tier == "quick" else 20000
-    return [(core.Stream("broker-deliver", "broker", gen, predicate, nontrivial, canon=canon, keep_prefix=1, hint=wire.shared_hints), n)]
+    return [(core.Stream("broker-deliver", "broker", gen, predicate, nontrivial, canon=canon, keep_prefix=1, hint=wire.shared_hints), n),
+            (core.Stream("broker-backlog", "broker", gen_backlog, predicate_backlog, nontrivial_backlog, canon=canon, keep_prefix=1,
+                         hint=wire.shared_hints), n // 2)]
 
 def run(r):
     return core.standard_run(r, __import__(__name__, fromlist=["x"]))
